@@ -85,6 +85,54 @@ func r061(c *Ctx, r *R) {
 		// result built differently
 		r.Und("final-filter", f.Pos(), "StatusAll builds its result without append: shape not recognised")
 	}
+	// the operation tracker's view takes precedence for every CID it
+	// knows, exactly as in Status (GetExists answers first there): each
+	// element of the complete operation list overwrites the entry of its
+	// CID, unconditionally (a filter applied at this point keeps the stale
+	// local entry of an operation that does not match the filter).
+	var getAll *ssa.Call
+	for _, ci := range callsIn(f) {
+		if nameMatches(callName(ci.Common()), "optracker.OperationTracker).GetAll") {
+			getAll, _ = ci.(*ssa.Call)
+		}
+	}
+	if getAll == nil {
+		r.Bad("overlay:complete", f.Pos(), "StatusAll does not overlay the complete list of tracked operations (OperationTracker.GetAll): the per-CID view (Status) answers from the tracker for every tracked CID")
+		return
+	}
+	overlays := 0
+	instrs(f, func(i ssa.Instruction) {
+		mu, ok := i.(*ssa.MapUpdate)
+		if !ok {
+			return
+		}
+		// value stored: an element of GetAll's result
+		ld, ok := mu.Value.(*ssa.UnOp)
+		if !ok {
+			return
+		}
+		ia, ok := ld.X.(*ssa.IndexAddr)
+		if !ok || ia.X != ssa.Value(getAll) {
+			return
+		}
+		overlays++
+		var extra []string
+		for _, g := range guardsOf(mu.Block()) {
+			if g.If.Block() == getAll.Block() || g.If.Block().Dominates(getAll.Block()) {
+				continue // decided before the operation list was taken
+			}
+			if bo, ok := g.Cond.(*ssa.BinOp); ok {
+				if l, ok := bo.Y.(*ssa.Call); ok && callName(l.Common()) == "builtin.len" && l.Common().Args[0] == ssa.Value(getAll) {
+					continue // the loop bound
+				}
+			}
+			extra = append(extra, c.P.Pos(g.If.Cond.Pos()))
+		}
+		r.Check(len(extra) == 0, "overlay:unconditional", mu.Pos(), "every tracked operation replaces the local entry of its CID, unconditionally", fmt.Sprintf("the overlay of tracked operations onto the local listing is conditional (%v): an operation that fails the condition leaves the stale local status of its CID in the listing, which the per-CID view never reports", extra))
+	})
+	if overlays == 0 {
+		r.Bad("overlay:complete", getAll.Pos(), "the tracked operations returned by GetAll are not stored into the listing map")
+	}
 }
 
 func r062(c *Ctx, r *R) {
